@@ -529,6 +529,35 @@ def unprivileged_histories(c, rnd, n):
         else:
             c.notes.append("known finding keepperm-readonly-dir no longer reproduces (extract rc %s): remove it from known_findings.txt" % rc2)
         subprocess.run(["chmod", "-R", "u+rwx", d], check=False)
+        # a read-only FILE that carries a user.* attribute, --keep-permission --keep-xattr on both sides, as nobody (fix
+        # a5539992: the attributes used to be set after the mode, which an unprivileged user may not do on a 0444 file)
+        d = sb.path("rx")
+        os.makedirs(os.path.join(d, "t"))
+        os.chmod(d, 0o777)
+        if xattr_supported(d):
+            for name, mode in (("ro", 0o444), ("rw", 0o644), ("x", 0o500)):
+                q = os.path.join(d, "t", name)
+                with open(q, "wb") as f:
+                    f.write(name.encode())
+                os.setxattr(q, "user.k", b"v-" + name.encode())
+                os.chmod(q, mode)
+            subprocess.run(["chown", "-R", "65534:65534", os.path.join(d, "t")], check=True)
+            rc1, err1 = as_nobody(["--quiet", "create", "a.pna", "-r", "t", "--keep-permission", "--keep-xattr"], d)
+            rc2, err2 = as_nobody(["--quiet", "extract", "a.pna", "--out-dir", "o", "--keep-permission", "--keep-xattr"], d) if rc1 == 0 else (None, "")
+            runs += 2
+            hist = "as nobody: files t/ro (0444), t/rw (0644), t/x (0500) each with user.k ; pna create a.pna -r t --keep-permission --keep-xattr ; pna extract a.pna --out-dir o --keep-permission --keep-xattr"
+            if rc1 != 0 or rc2 != 0:
+                c.violations.append(("oracle", "create / extract --keep-permission --keep-xattr as an unprivileged user fails (rc %s / %s): %s" % (rc1, rc2, err2 or err1), hist, True))
+            else:
+                for name, mode in (("ro", 0o444), ("rw", 0o644), ("x", 0o500)):
+                    q = os.path.join(d, "o", "t", name)
+                    try:
+                        got = (stat.S_IMODE(os.lstat(q).st_mode), os.getxattr(q, "user.k"))
+                    except OSError as ex:
+                        got = (None, str(ex).encode())
+                    if got != (mode, b"v-" + name.encode()):
+                        c.violations.append(("oracle", "t/%s: mode / user.k after extraction as an unprivileged user are %s, archived (%o, v-%s)" % (name, got, mode, name), hist, True))
+                        break
         subprocess.run(["chown", "-R", "0:0", sb.root], check=False)
     c.cov["evaluations"] += runs
     c.hist["runs as an unprivileged user"] = runs
